@@ -9,6 +9,7 @@ import (
 	"go/types"
 	"os"
 	"path/filepath"
+	"regexp"
 	"sort"
 	"strings"
 
@@ -383,8 +384,8 @@ func CountInstrs(fns []*ssa.Function) int {
 }
 
 // shorten drops the path noise shared by all subject packages.
+var shortenRe = regexp.MustCompile(`(^|[(*\[ ,\]])pkg/(versions/1_0/)?`)
+
 func shorten(s string) string {
-	s = strings.ReplaceAll(s, "pkg/versions/1_0/", "")
-	s = strings.ReplaceAll(s, "pkg/", "")
-	return s
+	return shortenRe.ReplaceAllString(s, "$1")
 }
